@@ -521,10 +521,15 @@ leaps_before(struct dt_dt_s d)
 		res = leaps_before_ui32(leaps_ymd, nleaps, d.d.ymd.u);
 		on = res + 1 < nleaps && leaps_ymd[res + 1] == d.d.ymd.u;
 		break;
-	case DT_YMCW:
-		res = leaps_before_ui32(leaps_ymcw, nleaps, d.d.ymcw.u);
-		on = res + 1 < nleaps && leaps_ymcw[res + 1] == d.d.ymcw.u;
+	case DT_YMCW: {
+		/* the packed ymcw value does not sort chronologically within
+		 * a month (the count sits above the weekday), go by ymd */
+		const struct dt_d_s tmp = dt_dconv(DT_YMD, d.d);
+
+		res = leaps_before_ui32(leaps_ymd, nleaps, tmp.ymd.u);
+		on = res + 1 < nleaps && leaps_ymd[res + 1] == tmp.ymd.u;
 		break;
+	}
 	case DT_DAISY:
 		res = leaps_before_ui32(leaps_d, nleaps, d.d.daisy);
 		on = res + 1 < nleaps && leaps_d[res + 1] == d.d.daisy;
